@@ -12,6 +12,14 @@
 //!  3. runs the calls from `threads` threads on ONE shared graph (each thread loops over its
 //!     share of the calls several times, with the global or a per-call thread pool) and compares
 //!     every result with the reference.
+//!
+//! Stress lines `S#graph#shape/shape/..#threads#iters` (shape = `R|ins>outs` or `P|ins>outs`, the
+//! P = partial_run shapes last): all threads start together behind a barrier and issue `iters`
+//! calls each on ONE shared graph, every thread mostly repeating "its own" request shape (so
+//! that nearly every call has to replace the plan another thread just cached) and sometimes
+//! another one; every call runs under catch_unwind and its values / error are compared with the
+//! result of the same call made alone on a fresh graph. The first failing calls are reported
+//! as (thread, iteration, shape index) in `q_fail`.
 use rten::verif::planner::{InputSpec, NodeSpec, OutValue};
 use std::io::Write;
 use vh_planner::*;
@@ -45,7 +53,124 @@ fn res_eq(a: &Res, b: &Res) -> bool {
     }
 }
 
+#[derive(Clone, Debug)]
+struct Shape {
+    partial: bool,
+    call: Call,
+}
+
+fn shape_inputs(sh: &Shape, idx: usize, variant: usize) -> Vec<InputSpec> {
+    sh.call
+        .ins
+        .iter()
+        .enumerate()
+        .map(|(k, id)| InputSpec { id: *id, dtype: 0, shape: vec![], seq: false, owned: (idx + k) % 3 == 0, fill: (idx * 7 + k * 3 + 1 + variant * 11) as i32 })
+        .collect()
+}
+
+#[derive(PartialEq, Debug)]
+enum SRes {
+    Run(Res),
+    Partial(Result<Vec<(u32, OutValue)>, (String, String)>),
+    Panic,
+}
+
+fn issue(g: &rten::verif::planner::TestGraph, sh: &Shape, idx: usize, variant: usize, pool: Option<usize>) -> SRes {
+    let ins = shape_inputs(sh, idx, variant);
+    let r = std::panic::catch_unwind(std::panic::AssertUnwindSafe(|| {
+        if sh.partial { SRes::Partial(g.partial_run(&ins, &sh.call.outs)) } else { SRes::Run(g.run(&ins, &sh.call.outs, pool)) }
+    }));
+    r.unwrap_or(SRes::Panic)
+}
+
+const VARIANTS: usize = 4;
+
+fn stress_line(line: &str) -> String {
+    let parts: Vec<&str> = line.split('#').collect();
+    assert!(parts.len() == 5 && parts[0] == "S", "bad stress line");
+    let gs = GraphSpec::parse(parts[1]);
+    let shapes: Vec<Shape> = parts[2]
+        .split('/')
+        .filter(|s| !s.is_empty())
+        .map(|s| {
+            let (k, c) = s.split_once('|').unwrap();
+            Shape { partial: k == "P", call: parse_call(c) }
+        })
+        .collect();
+    let threads: usize = parts[3].parse().unwrap();
+    let iters: usize = parts[4].parse().unwrap();
+    // 1. the run shapes in sequence on one graph (model correspondence); partial_run shapes are
+    //    listed (so that q_fail can refer to them) but not run here
+    let g1 = gs.build();
+    let mut terms = vec![];
+    for (i, sh) in shapes.iter().enumerate() {
+        let c = &sh.call;
+        if sh.partial {
+            terms.push(format!("mkcall {} {} NotRun", coq_ids(&c.ins), coq_ids(&c.outs)));
+            continue;
+        }
+        g1.take_log();
+        let r = std::panic::catch_unwind(std::panic::AssertUnwindSafe(|| g1.run(&shape_inputs(sh, i, 0), &c.outs, None)));
+        let log = g1.take_log();
+        let term = match r {
+            Ok(Ok(_)) => format!("(Ok {})", coq_ids(&log)),
+            Ok(Err((k, m))) => format!("(Err {})", coq_plan_error(&k, &m)),
+            Err(_) => "Panic".to_string(),
+        };
+        terms.push(format!("mkcall {} {} {}", coq_ids(&c.ins), coq_ids(&c.outs), term));
+    }
+    // 2. reference: every (shape, variant) alone on a fresh graph
+    let reference: Vec<Vec<SRes>> = shapes
+        .iter()
+        .enumerate()
+        .map(|(i, sh)| (0..VARIANTS).map(|v| issue(&gs.build(), sh, i, v, None)).collect())
+        .collect();
+    let mut conc_ok = !reference.iter().flatten().any(|r| *r == SRes::Panic);
+    // 3. all threads at once on one shared graph
+    let g2 = gs.build();
+    let barrier = std::sync::Barrier::new(threads);
+    let fails: std::sync::Mutex<Vec<(usize, usize, usize)>> = std::sync::Mutex::new(vec![]);
+    let stop = std::sync::atomic::AtomicBool::new(false);
+    std::thread::scope(|s| {
+        for t in 0..threads {
+            let (g2, shapes, reference, barrier, fails, stop) = (&g2, &shapes, &reference, &barrier, &fails, &stop);
+            s.spawn(move || {
+                let mut rng = SplitMix64(0xC22 + t as u64 * 7919);
+                barrier.wait();
+                for it in 0..iters {
+                    if stop.load(std::sync::atomic::Ordering::Relaxed) {
+                        break;
+                    }
+                    let i = if rng.chance(3, 4) { t % shapes.len() } else { rng.below(shapes.len() as u64) as usize };
+                    let v = it % VARIANTS;
+                    // mostly the global thread pool; now and then a fresh single-thread pool for the call
+                    let pool = if it % 97 == t { Some(1) } else { None };
+                    let r = issue(g2, &shapes[i], i, v, pool);
+                    if r != reference[i][v] {
+                        let mut f = fails.lock().unwrap();
+                        f.push((t, it, i));
+                        if f.len() >= 4 {
+                            stop.store(true, std::sync::atomic::Ordering::Relaxed);
+                        }
+                    }
+                }
+            });
+        }
+    });
+    let fails = fails.into_inner().unwrap();
+    conc_ok = conc_ok && fails.is_empty();
+    let ftxt: Vec<String> = fails.iter().take(4).map(|(t, it, i)| format!("({},{},{})", t, it, i)).collect();
+    let tag = format!("stress-t{}-{}", threads, if conc_ok { "ok" } else { "anomaly" });
+    format!(
+        "{}\t{}\t{{| q_graph := {}; q_calls := [{}]; q_conc_ok := {}; q_fail := [{}] |}}",
+        tag, line, gs.coq(), terms.join(";"), conc_ok, ftxt.join(";")
+    )
+}
+
 fn exec_line(line: &str) -> String {
+    if line.starts_with("S#") {
+        return stress_line(line);
+    }
     let parts: Vec<&str> = line.split('#').collect();
     assert!(parts.len() == 3, "bad line");
     let gs = GraphSpec::parse(parts[0]);
@@ -120,23 +245,91 @@ fn exec_line(line: &str) -> String {
     conc_ok = conc_ok && ok.load(std::sync::atomic::Ordering::SeqCst);
     let tag = format!("t{}-calls{}-{}{}", threads, calls.len().min(9), if n_err > 0 { "witherr" } else { "allok" }, if conc_ok { "" } else { "-anomaly" });
     format!(
-        "{}\t{}\t{{| q_graph := {}; q_calls := [{}]; q_conc_ok := {} |}}",
+        "{}\t{}\t{{| q_graph := {}; q_calls := [{}]; q_conc_ok := {}; q_fail := [] |}}",
         tag, line, gs.coq(), seq_terms.join(";"), conc_ok
     )
 }
 
 fn fail_line(line: &str, kind: Fail) -> String {
-    let gs = GraphSpec::parse(line.split('#').next().unwrap());
+    let gs = GraphSpec::parse(line.trim_start_matches("S#").split('#').next().unwrap());
     let (o, t, ok) = match kind {
         Fail::Hang => ("Timeout", "anomaly-timeout", false),
         Fail::Crash => ("Panic", "anomaly-crash", false),
         Fail::Skip => ("NotRun", "notrun", true),
     };
-    format!("{}\t{}\t{{| q_graph := {}; q_calls := [mkcall [] [] {}]; q_conc_ok := {} |}}", t, line, gs.coq(), o, ok)
+    format!("{}\t{}\t{{| q_graph := {}; q_calls := [mkcall [] [] {}]; q_conc_ok := {}; q_fail := [] |}}", t, line, gs.coq(), o, ok)
 }
 
-fn generate(seed: u64, n: usize, _tier: &str, out: &mut dyn Write) {
+/// stress lines: a graph with several independent and shared sub-chains and 6-8 request shapes
+fn stress_gen(rng: &mut SplitMix64, threads: usize, iters: usize, out: &mut dyn Write) {
+    let n_in = 3u32;
+    let mut nodes: Vec<NodeSpec> = (0..n_in).map(|_| NodeSpec::Value { dtype: None, shape: None }).collect();
+    nodes.push(NodeSpec::Constant);
+    let n_src = n_in + 1;
+    let n_ops = 8 + rng.below(5) as u32;
+    let mut op_outs: Vec<Vec<u32>> = vec![];
+    for _ in 0..n_ops {
+        let k = if rng.chance(1, 4) { 2 } else { 1 };
+        let mut o = vec![];
+        for _ in 0..k {
+            o.push(nodes.len() as u32);
+            nodes.push(NodeSpec::Value { dtype: None, shape: None });
+        }
+        op_outs.push(o);
+    }
+    let mut avail: Vec<u32> = (0..n_src).collect();
+    let mut op_inputs: Vec<Vec<u32>> = vec![];
+    for j in 0..n_ops as usize {
+        let arity = 1 + rng.below(2) as usize;
+        let ins: Vec<u32> = (0..arity).map(|_| avail[rng.below(avail.len() as u64) as usize]).collect();
+        nodes.push(NodeSpec::Op { inputs: ins.iter().map(|x| Some(*x)).collect(), outputs: op_outs[j].iter().map(|x| Some(*x)).collect(), captures: vec![], in_place: rng.chance(1, 3) });
+        op_inputs.push(ins);
+        avail.extend(op_outs[j].iter().copied());
+    }
+    let gs = GraphSpec { nodes, captures: vec![] };
+    let all_ins: Vec<u32> = (0..n_in).collect();
+    let all_outs: Vec<u32> = op_outs.iter().flatten().copied().collect();
+    let pick_outs = |rng: &mut SplitMix64, k: usize| -> Vec<u32> {
+        let mut o = vec![];
+        while o.len() < k.min(all_outs.len()) {
+            let v = all_outs[rng.below(all_outs.len() as u64) as usize];
+            if !o.contains(&v) {
+                o.push(v);
+            }
+        }
+        o
+    };
+    let mut shapes: Vec<String> = vec![];
+    // run shapes with all graph inputs and different output sets
+    for k in [1usize, 1, 2, 3] {
+        shapes.push(format!("R|{}>{}", fmt_ids(&all_ins), fmt_ids(&pick_outs(rng, k))));
+    }
+    // run shapes that feed an intermediate value: the inputs of an operator late in the graph
+    for _ in 0..2 {
+        let j = (n_ops as usize / 2) + rng.below((n_ops as u64 + 1) / 2) as usize;
+        let mut ins: Vec<u32> = op_inputs[j].iter().copied().filter(|v| *v != n_in).collect(); // not the constant
+        ins.sort();
+        ins.dedup();
+        shapes.push(format!("R|{}>{}", fmt_ids(&ins), op_outs[j][0]));
+    }
+    // a permutation of the first shape (same cache key, other order)
+    {
+        let mut ins = all_ins.clone();
+        ins.reverse();
+        shapes.push(format!("R|{}>{}", fmt_ids(&ins), fmt_ids(&pick_outs(rng, 2))));
+    }
+    // partial runs (do not use the plan cache, but run at the same time)
+    shapes.push(format!("P|{}>{}", fmt_ids(&all_ins[..1]), fmt_ids(&pick_outs(rng, 2))));
+    writeln!(out, "S#{}#{}#{}#{}", gs.fmt(), shapes.join("/"), threads, iters).unwrap();
+}
+
+fn generate(seed: u64, n: usize, tier: &str, out: &mut dyn Write) {
     let mut rng = SplitMix64(seed ^ 0x22);
+    // stress lines first: 8 threads hammering one shared graph
+    let (lines, iters) = if tier == "thorough" { (12, 12000) } else { (4, 4000) };
+    for _ in 0..lines {
+        stress_gen(&mut rng, 8, iters, out);
+    }
     for _ in 0..n {
         // closed acyclic graph with several alternative outputs
         let n_in = 2 + rng.below(3) as u32;
@@ -203,5 +396,5 @@ fn generate(seed: u64, n: usize, _tier: &str, out: &mut dyn Write) {
 }
 
 fn main() {
-    harness_main(generate, exec_line, fail_line, 20000);
+    harness_main(generate, exec_line, fail_line, 180000);
 }
